@@ -97,7 +97,7 @@ func KindTables(p *core.Program, r *core.Report, rule string) {
 	sws := findKindSwitches(p)
 	var master *kindSwitch
 	for i := range sws {
-		if sws[i].fd.Obj.Name() == "getEmptyInitializedFieldObjByKind" {
+		if core.RefName(sws[i].fd.Obj) == "getEmptyInitializedFieldObjByKind" {
 			master = &sws[i]
 		}
 	}
@@ -271,7 +271,7 @@ func checkCaseFields(p *core.Program, r *core.Report, rule string, ks kindSwitch
 	st := k8sObj.Underlying().(*types.Struct)
 	isObjField := map[*types.Var]bool{}
 	for i := 0; i < st.NumFields(); i++ {
-		if st.Field(i).Name() != "Kind" {
+		if core.RefName(st.Field(i)) != "Kind" {
 			isObjField[st.Field(i)] = true
 		}
 	}
@@ -284,8 +284,8 @@ func checkCaseFields(p *core.Program, r *core.Report, rule string, ks kindSwitch
 			switch x := nd.(type) {
 			case *ast.SelectorExpr:
 				if f := core.FieldOf(info, x); f != nil && isObjField[f] {
-					if f.Name() != kind || multi {
-						bad = "selects field " + f.Name()
+					if core.RefName(f) != kind || multi {
+						bad = "selects field " + core.RefName(f)
 					}
 				}
 			case *ast.TypeAssertExpr:
